@@ -131,6 +131,9 @@ Build(st, sl, rg) ==
     [] st.op = "GoWrap2"    -> V("goWrapErrors", Text(e) \o st.s \o Text(x), <<>>, <<e, x>>, <<>>)
     \* ---- transfer
     [] st.op = "Hop"        -> IF IsNil(e) THEN Nil ELSE Hop(e, SeqToSet(st.known), rg, Deviations)
+    \* ---- decoding of faulty / arbitrary wire messages (C05): the result is some
+    \* non-nil error; its contents are not predicted
+    [] st.op \in {"DecodeFault", "DecodeFuzz"} -> V("decoded", <<>>, st.a, <<>>, <<>>)
     [] st.op = "Copy"       -> e
     [] st.op = "Clear"      -> Nil
 
@@ -143,7 +146,7 @@ ConstructorOps ==
    "HandleAsAssertionFailure", "NewAssertionErrorWithWrappedErrf", "WrapWithHTTPCode",
    "WrapWithGrpcCode", "GoWrap", "PkgWithMessage", "PkgWithStack", "PkgWrap", "OsPathError",
    "OsLinkError", "OsSyscallError", "UWrap", "Join", "JoinPkg", "GoJoin", "GoWrap2", "Hop",
-   "Copy", "Clear"}
+   "Copy", "Clear", "DecodeFault", "DecodeFuzz"}
 
 \* A step is well-formed for the current state (enabling condition).
 Enabled(st, sl) ==
